@@ -30,3 +30,5 @@ def run(prog, chk):
                 rules.append(r)
     PC.check_verdicts(prog, chk, "C04.verdicts", rules)
     PC.check_guards(prog, chk, "C04.guards", rules)
+    chk.rule("C04.rightlinks", "CAL-04: the extender's right links are exactly the signature's right links (scenario table over link lists)", floor=10)
+    PC.check_right_links(prog, chk, "C04.rightlinks")
